@@ -32,6 +32,9 @@ var verifKindHi = 3
 // verifInstallSym installs only the named Sym methods (every installed symbolic value is
 // rendered by appendSignature at the end of the run, so unused ones would only fork paths).
 func verifInstallSym(names ...string) *verifSym {
+	if verifapi.Thorough() && verifKindHi == 3 {
+		verifKindHi = 5 // thorough tier: leaf kinds also range over Float and Symbol
+	}
 	s := &verifSym{}
 	vals := map[string]base.T{}
 	for _, n := range names {
